@@ -31,11 +31,19 @@ type Op struct {
 	Res  int
 	Idx  int    // index key number, -1 for scalar access
 	Tok  string // value written
-	Fwd  bool   // (writes) append "~" + the value last read in this attempt: the value is relayed, tagged
+	// OnlyFaulty: performed only in attempts for which the plan holds a fault (which abort), not in the attempt that
+	// commits: the retry of a section need not repeat what the failed attempt did (another message arrived, another
+	// branch was taken), so residue of an aborted attempt cannot hide behind an identical re-execution.
+	OnlyFaulty bool
+	Fwd        bool // (writes) append "~" + the value last read in this attempt: the value is relayed, tagged
 	Raw  bool   // (with Fwd) the relayed value keeps the vector clock it arrived with (as seen below iface.Read)
 }
 
 func (o Op) String() string {
+	if o.OnlyFaulty {
+		o.OnlyFaulty = false
+		return "(in failing attempts only: " + o.String() + ")"
+	}
 	ix := ""
 	if o.Idx >= 0 {
 		ix = fmt.Sprintf("[%d]", o.Idx)
@@ -692,10 +700,14 @@ func Execute(p *Program, insts []Instance, opt Options) Result {
 				f := p.Plan[li][a]
 				r.curFault = &f
 			}
+			faulty := r.curFault != nil
 			for j, op := range p.Labels[li].Ops {
 				if f := r.curFault; f != nil && f.Mode == FAwait && f.Pos == j {
 					r.fired = true
 					return distsys.ErrCriticalSectionAborted
+				}
+				if op.OnlyFaulty && !faulty {
+					continue
 				}
 				if err := r.doOp(iface, j, op); err != nil {
 					return err
